@@ -1,0 +1,133 @@
+//go:build verif
+
+package raft
+
+import (
+	"sync/atomic"
+)
+
+// VerifHookFn, when set, is invoked at every verifHook call site. It may block:
+// a hook doubles as a scheduler gate for the verification harness.
+var verifHookFn atomic.Value // func(name string, args ...interface{})
+
+// VerifSetHook installs (or with nil removes) the hook callback.
+func VerifSetHook(fn func(name string, args ...interface{})) {
+	if fn == nil {
+		verifHookFn.Store((func(string, ...interface{}))(nil))
+		return
+	}
+	verifHookFn.Store(fn)
+}
+
+func verifHook(name string, args ...interface{}) {
+	if fn, _ := verifHookFn.Load().(func(string, ...interface{})); fn != nil {
+		fn(name, args...)
+	}
+}
+
+// VerifCommitment wraps the unexported commitment type.
+type VerifCommitment struct {
+	c  *commitment
+	ch chan struct{}
+}
+
+func VerifNewCommitment(configuration Configuration, startIndex uint64) *VerifCommitment {
+	ch := make(chan struct{}, 1)
+	return &VerifCommitment{c: newCommitment(ch, configuration, startIndex), ch: ch}
+}
+func (v *VerifCommitment) Match(server ServerID, idx uint64)  { v.c.match(server, idx) }
+func (v *VerifCommitment) SetConfiguration(cfg Configuration) { v.c.setConfiguration(cfg) }
+func (v *VerifCommitment) CommitIndex() uint64                { return v.c.getCommitIndex() }
+func (v *VerifCommitment) MatchIndexes() map[ServerID]uint64 {
+	v.c.Lock()
+	defer v.c.Unlock()
+	m := make(map[ServerID]uint64, len(v.c.matchIndexes))
+	for k, x := range v.c.matchIndexes {
+		m[k] = x
+	}
+	return m
+}
+
+// Notified reports (and clears) whether commitCh was signalled.
+func (v *VerifCommitment) Notified() bool {
+	select {
+	case <-v.ch:
+		return true
+	default:
+		return false
+	}
+}
+
+// VerifNextConfiguration wraps nextConfiguration.
+func VerifNextConfiguration(current Configuration, currentIndex uint64, command ConfigurationChangeCommand,
+	id ServerID, addr ServerAddress, prevIndex uint64) (Configuration, error) {
+	return nextConfiguration(current, currentIndex, configurationChangeRequest{
+		command: command, serverID: id, serverAddress: addr, prevIndex: prevIndex,
+	})
+}
+
+// VerifCheckConfiguration wraps checkConfiguration.
+func VerifCheckConfiguration(c Configuration) error { return checkConfiguration(c) }
+
+// VerifCompactLogsWithTrailing wraps compactLogsWithTrailing.
+func (r *Raft) VerifCompactLogsWithTrailing(snapIdx, lastLogIdx, trailing uint64) error {
+	return r.compactLogsWithTrailing(snapIdx, lastLogIdx, trailing)
+}
+
+// VerifLeaderState is a copy of the leader-only state.
+type VerifLeaderState struct {
+	StartIndex  uint64
+	CommitIndex uint64
+	Match       map[ServerID]uint64
+	Next        map[ServerID]uint64
+	Inflight    int
+	Transfer    bool
+}
+
+// VerifStateSnapshot is a copy of internal state. Only meaningful when the
+// main goroutine is quiescent (the harness guarantees that).
+type VerifStateSnapshot struct {
+	Committed      Configuration
+	CommittedIndex uint64
+	Latest         Configuration
+	LatestIndex    uint64
+	LastLogIndex   uint64
+	LastLogTerm    uint64
+	LastSnapIndex  uint64
+	LastSnapTerm   uint64
+	FromTransfer   bool
+	FSMPending     int
+	Leader         *VerifLeaderState
+}
+
+func (r *Raft) VerifState() VerifStateSnapshot {
+	var s VerifStateSnapshot
+	s.Committed = r.configurations.committed.Clone()
+	s.CommittedIndex = r.configurations.committedIndex
+	s.Latest = r.configurations.latest.Clone()
+	s.LatestIndex = r.configurations.latestIndex
+	s.LastLogIndex, s.LastLogTerm = r.getLastLog()
+	s.LastSnapIndex, s.LastSnapTerm = r.getLastSnapshot()
+	s.FromTransfer = r.candidateFromLeadershipTransfer.Load()
+	s.FSMPending = len(r.fsmMutateCh)
+	if r.getState() == Leader && r.leaderState.commitment != nil && r.leaderState.replState != nil {
+		ls := &VerifLeaderState{Match: map[ServerID]uint64{}, Next: map[ServerID]uint64{}}
+		c := r.leaderState.commitment
+		c.Lock()
+		ls.StartIndex = c.startIndex
+		ls.CommitIndex = c.commitIndex
+		for k, v := range c.matchIndexes {
+			ls.Match[k] = v
+		}
+		c.Unlock()
+		for id, repl := range r.leaderState.replState {
+			ls.Next[id] = atomic.LoadUint64(&repl.nextIndex)
+		}
+		if r.leaderState.inflight != nil {
+			ls.Inflight = r.leaderState.inflight.Len()
+		}
+		ls.Transfer = r.getLeadershipTransferInProgress()
+		s.Leader = ls
+	}
+	return s
+}
